@@ -96,3 +96,142 @@ theorem number_get (h : Header) (c : Bool) (t : Nat) : ∀ (i : Nat) (ds : List 
     rw [this]
 
 end SecsModel.Proofs.SecsI
+
+namespace SecsModel.Proofs.SecsI
+open SecsModel SecsModel.Gen SecsModel.Model.SecsI SecsModel.Proofs.SecsIHdr
+
+theorem sum_le_of_allBytes : ∀ (bs : Bytes), AllBytes bs → bs.sum ≤ 255 * bs.length
+  | [], _ => by simp
+  | b :: bs, h => by
+    have hb : b < 256 := h b (by simp)
+    have := sum_le_of_allBytes bs (fun x hx => h x (by simp [hx]))
+    simp only [List.sum_cons, List.length_cons]; omega
+
+theorem sum_set : ∀ (l : List Nat) (i : Nat) (v : Nat) (h : i < l.length), (l.set i v).sum + l[i] = l.sum + v
+  | [], i, v, h => by simp at h
+  | a :: l, 0, v, h => by simp; omega
+  | a :: l, i+1, v, h => by
+    have := sum_set l i v (by simpa using h)
+    simp only [List.set_cons_succ, List.sum_cons, List.getElem_cons_succ]; omega
+
+theorem allBytes_append {a b : Bytes} : AllBytes (a ++ b) ↔ AllBytes a ∧ AllBytes b := by
+  unfold AllBytes
+  constructor
+  · intro h; exact ⟨fun x hx => h x (by simp [hx]), fun x hx => h x (by simp [hx])⟩
+  · intro ⟨h1, h2⟩ x hx
+    rcases List.mem_append.mp hx with hx | hx
+    · exact h1 x hx
+    · exact h2 x hx
+
+/-- `Block.decode` with the generated widths (length byte 1, header 10, checksum 2) substituted; closed by `rfl`, so a change of
+`length_format`, `checksum_format` or the header length in the source re-opens it -/
+theorem decode_eq (raw : Bytes) : Block.decode raw =
+    (if raw.length < 1 then .error .structError else
+     if ofBe (raw.take 1) < 10 then .error .structError else
+     if raw.length ≠ 1 + 10 + (ofBe (raw.take 1) - 10) + 2 then .error .structError else
+     match SecsIHeader.decode ((raw.drop 1).take 10) with
+     | .error e => .error e
+     | .ok h =>
+       match checksum ⟨h, (raw.drop (1 + 10)).take (ofBe (raw.take 1) - 10)⟩ with
+       | .error e => .error e
+       | .ok s =>
+         if s ≠ ofBe (raw.drop (1 + 10 + (ofBe (raw.take 1) - 10))) then .ok none
+         else .ok (some ⟨h, (raw.drop (1 + 10)).take (ofBe (raw.take 1) - 10)⟩)) := rfl
+
+/-- `Block.decode` on a byte string that is already cut into length byte, ten header bytes, data, two checksum bytes -/
+theorem decode_struct (l : Nat) (hb data ck : Bytes) (hhb : hb.length = 10) (hck : ck.length = 2) (hl : l < 256)
+    (ahb : AllBytes hb) :
+    ∃ h, SecsIHeader.decode hb = .ok h ∧ h.encode = .ok hb ∧
+      Block.decode (l :: (hb ++ (data ++ ck))) =
+        if l = 10 + data.length then
+          .ok (if (hb ++ data).sum = ofBe ck then some ⟨h, data⟩ else none)
+        else .error .structError := by
+  obtain ⟨h, hdec, _, henc⟩ := encode_decode hb hhb ahb
+  refine ⟨h, hdec, henc, ?_⟩
+  have e1 : ofBe [l] = l := by simp [ofBe]
+  by_cases hc : l = 10 + data.length
+  · rw [decode_eq, if_pos hc]
+    have t1 : (l :: (hb ++ (data ++ ck))).take 1 = [l] := by simp
+    have c1 : ¬ ((l :: (hb ++ (data ++ ck))).length < 1) := by simp
+    have c3 : ¬ ((l :: (hb ++ (data ++ ck))).length ≠ 1 + 10 + (l - 10) + 2) := by
+      simp [hhb, hck]; omega
+    have d1 : ((l :: (hb ++ (data ++ ck))).drop 1).take 10 = hb := by
+      simp only [List.drop_succ_cons, List.drop_zero]
+      rw [List.take_left' hhb]
+    have d2 : ((l :: (hb ++ (data ++ ck))).drop (1 + 10)).take (l - 10) = data := by
+      have : (l :: (hb ++ (data ++ ck))).drop (1 + 10) = data ++ ck := by
+        show (l :: (hb ++ (data ++ ck))).drop (10 + 1) = _
+        rw [List.drop_succ_cons, List.drop_left' hhb]
+      rw [this]
+      have : l - 10 = data.length := by omega
+      rw [this, List.take_left' rfl]
+    have d3 : (l :: (hb ++ (data ++ ck))).drop (1 + 10 + (l - 10)) = ck := by
+      have : 1 + 10 + (l - 10) = (10 + data.length) + 1 := by omega
+      rw [this, List.drop_succ_cons]
+      have : hb ++ (data ++ ck) = (hb ++ data) ++ ck := by simp
+      rw [this, List.drop_left' (by simp [hhb])]
+    rw [if_neg c1, t1, e1]
+    have c2 : ¬ (l < 10) := by omega
+    rw [if_neg c2, if_neg c3, d1, d2, d3, hdec]
+    simp only [checksum, henc]
+    by_cases hs : (hb ++ data).sum = ofBe ck
+    · rw [if_pos hs]; simp [List.sum_append] at hs ⊢; simp [hs]
+    · rw [if_neg hs]; simp [List.sum_append] at hs ⊢; simp [hs]
+  · rw [decode_eq, if_neg hc]
+    have c1 : ¬ ((l :: (hb ++ (data ++ ck))).length < 1) := by simp
+    have t1 : (l :: (hb ++ (data ++ ck))).take 1 = [l] := by simp
+    rw [if_neg c1, t1, e1]
+    by_cases c2 : l < 10
+    · rw [if_pos c2]
+    · rw [if_neg c2]
+      have c3 : (l :: (hb ++ (data ++ ck))).length ≠ 1 + 10 + (l - 10) + 2 := by
+        simp [hhb, hck]; omega
+      rw [if_pos c3]
+
+end SecsModel.Proofs.SecsI
+
+namespace SecsModel.Proofs.SecsI
+open SecsModel SecsModel.Gen SecsModel.Model.SecsI SecsModel.Proofs.SecsIHdr
+
+theorem be1 (x : Nat) (h : x < 256) : be 1 x = [x] := by
+  simp [be, Nat.mod_eq_of_lt h]
+
+/-- the generated widths: one length byte, two checksum bytes, ten header bytes (closed by `rfl`) -/
+theorem encode_eq (b : Block) : Block.encode b = Block.encodeW 1 2 10 b := rfl
+
+
+
+theorem encodeW_ok (lw cw hl : Nat) (b : Block) (hb lb cb : Bytes) (h1 : b.header.encode = .ok hb)
+    (h2 : Py.packBE [(lw, ((hl + b.data.length : Nat) : Int))] = .ok lb)
+    (h3 : Py.packBE [(cw, (((hb ++ b.data).sum : Nat) : Int))] = .ok cb) :
+    Block.encodeW lw cw hl b = .ok (lb ++ (hb.take hl ++ List.replicate (hl - hb.length) 0) ++ b.data ++ cb) := by
+  unfold Block.encodeW
+  split
+  · rename_i e he; rw [h1] at he; cases he
+  · rename_i hb' he
+    rw [h1] at he; cases he
+    split
+    · rename_i e he2; rw [h2] at he2; cases he2
+    · rename_i lb' he2
+      rw [h2] at he2; cases he2
+      split
+      · rename_i e he3; rw [h3] at he3; cases he3
+      · rename_i cb' he3
+        rw [h3] at he3; cases he3
+        rfl
+
+theorem encode_struct (h : Header) (data : Bytes) (hb : Bytes) (henc : h.encode = .ok hb) (hhb : hb.length = 10)
+    (ahb : AllBytes hb) (adata : AllBytes data) (hn : data.length ≤ 245) :
+    Block.encode ⟨h, data⟩ = .ok ((10 + data.length) :: (hb ++ (data ++ be 2 ((hb ++ data).sum)))) := by
+  have hsum : (hb ++ data).sum < 256 ^ 2 := by
+    have := sum_le_of_allBytes (hb ++ data) (allBytes_append.mpr ⟨ahb, adata⟩)
+    simp only [List.length_append, hhb] at this
+    omega
+  have p1 := Py.packBE_cons_nat 1 (10 + data.length) [] [] (by omega) rfl
+  have p2 := Py.packBE_cons_nat 2 ((hb ++ data).sum) [] [] hsum rfl
+  rw [encode_eq, encodeW_ok 1 2 10 ⟨h, data⟩ hb _ _ henc p1 p2]
+  rw [be1 _ (by omega : 10 + data.length < 256)]
+  have : hb.take 10 = hb := by rw [← hhb]; exact List.take_length
+  simp [this, hhb]
+
+end SecsModel.Proofs.SecsI
